@@ -332,6 +332,13 @@ def make_candidates(self, fr, M, leaves, states, step_consts, houdini):
         """expr is an expression over leaf symbols/refs; find k with expr >= k in all states"""
         k0 = tightest_lb(stores[0], entry_sub(expr, 0))
         if k0 is None:
+            # unbounded, or the projection gave up: still try the standard weak constants
+            for k in sorted(weak, reverse=True):
+                at = C(k) - expr
+                if all(stores[i].entails_le(entry_sub(at, i)) for i in range(n)):
+                    cands.append(('le', at))
+                    if not houdini:
+                        break
             return
         ks = [k0] + ([k for k in weak if k < k0] if houdini else [])
         got = 0
@@ -378,6 +385,29 @@ def make_candidates(self, fr, M, leaves, states, step_consts, houdini):
             for m in CONG_MODS:
                 if all(stores[i].divisible(A + leaf.entry[i], m) for i in range(n)):
                     cands.append(('div', leaf, m))
+    # counting invariants: an integer leaf that equals (entry value) + CountOf([entry cursor, cursor))
+    sr = states[0].ghost.get('search')
+    if sr is not None and houdini:
+        from . import e3
+        for g in leaves:
+            if g.kind != 'int':
+                continue
+            for x in leaves:
+                if x.kind != 'ptr' or x.region != sr['region']:
+                    continue
+                eg, ex = anchored(g), anchored(x)
+                for nd in sr['needles']:
+                    if eg is not None and ex is not None:
+                        cands.append(('cnt', g, x, nd, eg, ex))
+                    # relative to the start of the whole search (valid for loops with several entries)
+                    if all(states[i].store.entails_eq(
+                            g.entry[i] - (e3.Fsym(self, states[i], sr['region'], nd, x.entry[i])
+                                          - e3.Fsym(self, states[i], sr['region'], nd, sr['start']))) for i in range(n)):
+                        cands.append(('cnt', g, x, nd, ZERO, sr['start']))
+                # a count never exceeds the number of bytes scanned so far
+                at = V(g.x) - (V(x.x) - sr['start'])
+                if all(states[i].store.entails_le(g.entry[i] - (x.entry[i] - sr['start'])) for i in range(n)):
+                    cands.append(('le', at))
     # pairs of generalised leaves: differences and sums
     for i, a in enumerate(leaves):
         for b in leaves[i + 1:]:
@@ -407,6 +437,11 @@ def assume_cands(self, st, cands):
             leaf, m = c[1], c[2]
             k = fresh('k')
             st.store.add_eq(V(self.regions[leaf.region].A) + V(leaf.x) - m * V(k))
+        elif c[0] == 'cnt':
+            from . import e3
+            _, g, x, nd, eg, ex = c
+            r = x.region
+            st.store.add_eq(V(g.x) - eg - (e3.Fsym(self, st, r, nd, V(x.x)) - e3.Fsym(self, st, r, nd, ex)))
 
 
 def cand_holds(self, c, B, leaves):
@@ -421,6 +456,12 @@ def cand_holds(self, c, B, leaves):
     if c[0] == 'div':
         leaf, m = c[1], c[2]
         return B.store.divisible(V(self.regions[leaf.region].A) + sub[leaf.x], m)
+    if c[0] == 'cnt':
+        from . import e3
+        _, g, x, nd, eg, ex = c
+        r = x.region
+        d = sub[g.x] - eg - (e3.Fsym(self, B, r, nd, sub[x.x]) - e3.Fsym(self, B, r, nd, ex))
+        return B.store.entails_eq(d)
     return False
 
 
@@ -446,15 +487,13 @@ def merge_states(self, fr, b, states, force=frozenset(), houdini=False, step_con
     # they were entailed; add the candidates
     cands = make_candidates(self, fr, M, leaves, states, step_consts, houdini) if leaves else []
     extra = {l.x for l in leaves}
-    for c in cands:
-        if c[0] == 'le':
-            extra.update(c[1].syms())
+    extra |= cand_syms(cands, leaves)
     gc_state(self, M, extra=extra)
     if not houdini:
         assume_cands(self, M, cands)
     if self.opts.get('trace_loops'):
         import sys as _s
-        print(f"[merge {fr.inst.path} bb{b}] {len(states)} states, leaves {[(l.loc, l.path, l.part, l.x) for l in leaves]}, cands {[c[1] if c[0]=='le' else ('div', c[1].x, c[2]) for c in cands]}", file=_s.stderr)
+        print(f"[merge {fr.inst.path} bb{b}] {len(states)} states, leaves {[(l.loc, l.path, l.part, l.x) for l in leaves]}, cands {[c[1] if c[0]=='le' else (c[0], c[1].x, c[2] if c[0]=='div' else c[2].x) for c in cands]}", file=_s.stderr)
     return M, leaves, cands
 
 
@@ -547,7 +586,7 @@ def exec_loop(self, fr, h, entry_states):
             import sys as _s
             print(f"[loop {inst.path} bb{h}] round {rounds}: {len(leaves)} leaves {[ (l.loc, l.path, l.part) for l in leaves]}, {len(cands)} cands, {len(res['back'])} back states, {len(failed)} dropped", file=_s.stderr)
             for c in failed:
-                print('     drop', c[0], c[1] if c[0] == 'le' else (c[1].x, c[2]), file=_s.stderr)
+                print('     drop', c[0], c[1] if c[0] == 'le' else (c[1].x, c[2] if c[0] == 'div' else c[2].x), file=_s.stderr)
         if failed:
             fs = set(id(c) for c in failed)
             cands = [c for c in cands if id(c) not in fs]
@@ -659,6 +698,10 @@ def cand_syms(cands, leaves):
     for c in cands:
         if c[0] == 'le':
             out.update(c[1].syms())
+        elif c[0] == 'cnt':
+            out.update(c[4].syms())
+            out.update(c[5].syms())
+            out.update(c[3].syms())
     return out
 
 
@@ -676,7 +719,7 @@ def gc_state(self, st, extra=()):
         if isinstance(d, dict):
             for kk, vv in d.items():
                 term_syms(kk, acc)
-                if isinstance(vv, int) and k in ('bytes', 'decomp'):
+                if isinstance(vv, int) and k in ('bytes', 'decomp', 'F'):
                     acc.add(vv)
                 elif isinstance(vv, tuple):
                     term_syms(vv, acc)
